@@ -91,6 +91,31 @@ def traces_from_spec(hist: List[Dict[str, Any]], noop: bool, volatile: bool) -> 
 
 
 def validate(traces: List[Dict[str, Any]], name: str = "evalproto") -> Tuple[common.TLCResult, List[Dict[str, Any]]]:
+    """Judges the traces; a binding self-test rides along: a copy of a recorded trace in which a store
+    event before a path commit was dropped must be rejected (MachineryError otherwise)."""
+    import copy
+    traces = list(traces)
+    n_real = len(traces)
+    for t in traces[:n_real]:
+        ev = t["events"]
+        si = [i for (i, e) in enumerate(ev) if e["e"] == "store"]
+        ci = [i for (i, e) in enumerate(ev) if e["e"] == "sync" and e.get("m")]
+        if si and ci and si[0] < ci[-1] and not t.get("noop") and any(m_[1] == ev[si[0]].get("k") for e in ev if e["e"] == "sync" for m_ in e.get("m", [])):
+            c = copy.deepcopy(t)
+            c["events"] = [e for (i, e) in enumerate(ev) if i != si[0]]
+            c["test"] = "self-test"
+            traces.append(c)
+            break
+    (r, rejected) = _validate(traces, name)
+    r.selftest = len(traces) > n_real
+    if len(traces) > n_real:
+        if not any(rj["test"] == "self-test" for rj in rejected):
+            raise MachineryError("binding self-test: EvalProto accepted a trace with a dropped store event")
+        rejected = [rj for rj in rejected if rj["test"] != "self-test"]
+    return (r, rejected)
+
+
+def _validate(traces: List[Dict[str, Any]], name: str = "evalproto") -> Tuple[common.TLCResult, List[Dict[str, Any]]]:
     d = common.stage_spec({}, name)
     tf = os.path.join(d, "traces.json")
     norm = []
